@@ -611,6 +611,80 @@ func checkDecoderPanicsAndLoops(p *core.Program, r *core.Report) {
 			}
 		}
 	}
+	// element accesses whose index comes from the wire: directly, or as the counter of a loop that runs up to a
+	// count read from the wire. The element exists only if a dominating guard relates the index to len() of the
+	// indexed value (or to a constant); appending instead of indexing is the repository's idiom.
+	nIdx, nWireIdx := 0, 0
+	for f := range reach {
+		if f.Blocks == nil || !core.IsRepo(f) {
+			continue
+		}
+		loops := core.Loops(f)
+		core.EachInstr(f, func(in ssa.Instruction) {
+			var idx, base ssa.Value
+			switch x := in.(type) {
+			case *ssa.IndexAddr:
+				idx, base = x.Index, x.X
+			case *ssa.Index:
+				idx, base = x.Index, x.X
+			default:
+				return
+			}
+			if _, isC := core.ConstInt(idx); isC {
+				return
+			}
+			nIdx++
+			why := ""
+			if dependsOnWire(idx) {
+				why = "the index is computed from a value read from the input"
+			} else if phi, ok := core.Strip(idx).(*ssa.Phi); ok {
+				for _, l := range loops {
+					if l.Header != phi.Block() {
+						continue
+					}
+					if ifi, ok := l.Header.Instrs[len(l.Header.Instrs)-1].(*ssa.If); ok {
+						if b, ok := ifi.Cond.(*ssa.BinOp); ok {
+							for _, side := range []ssa.Value{b.X, b.Y} {
+								if w, _ := isWireValue(core.Strip(side)); w || dependsOnWire(side) {
+									why = "the index counts up to " + valStr(side) + ", a count read from the input"
+								}
+							}
+						}
+					}
+				}
+			}
+			if why == "" {
+				return
+			}
+			nWireIdx++
+			key := "wire-index/" + fname(f) + "/" + valStr(base)
+			rule := "an element is addressed with an index that the input controls only under a dominating comparison of that index with len() of the indexed value or with a constant"
+			guarded := false
+			for _, c := range core.DominatingConds(in.Block()) {
+				cb, ok := c.V.(*ssa.BinOp)
+				if !ok {
+					continue
+				}
+				for _, pair := range [][2]ssa.Value{{cb.X, cb.Y}, {cb.Y, cb.X}} {
+					if core.Strip(pair[0]) != core.Strip(idx) {
+						continue
+					}
+					if _, isC := core.ConstInt(pair[1]); isC {
+						guarded = true
+					}
+					if lc, ok := core.Strip(pair[1]).(*ssa.Call); ok {
+						if bi, ok := lc.Common().Value.(*ssa.Builtin); ok && bi.Name() == "len" {
+							guarded = true
+						}
+					}
+				}
+			}
+			r.Check(guarded, key, rule, p.Pos(in.Pos()), "", why+"; no dominating guard relates it to the length of "+valStr(base)+": an announced count larger than the slice makes the decoder panic (index out of range)")
+		})
+	}
+	r.Min("computed element accesses in decoder functions", 5)
+	r.Count("computed element accesses in decoder functions", nIdx)
+	r.Analysed["decoder_wire_indexed_accesses"] = nWireIdx
 	r.Analysed["decoder_loops"] = nLoops
 	r.Min("loops in decoder functions", 20)
 	r.Count("loops in decoder functions", nLoops)
